@@ -4,7 +4,9 @@ and store it under /verif/seeded/<prop>-<variant>/ with meta.json."""
 import json, os, re, shutil, subprocess, sys
 prop, var = sys.argv[1], sys.argv[2]
 checks = sys.argv[3:]
-src = f"/tmp/wt_{prop}/SEEDED/{var}"
+wtprefix = os.environ.get("WTPREFIX", "/tmp/wt_")
+outvar = os.environ.get("AS", var)
+src = f"{wtprefix}{prop}/SEEDED/{var}"
 readme = open(f"{src}/README.md").read()
 cmd = re.search(r"cargo test[^`\n]*", readme).group(0).split()[2:]
 cmd = [c for c in cmd if c != "--offline"]
@@ -23,12 +25,12 @@ if ok:
     for m in re.finditer(r"== (C\d+) exit=(\d+) (\d+) violation", r.stdout):
         results[m.group(1)] = {"exit": int(m.group(2)), "violation_lines": int(m.group(3))}
     whats = re.findall(r"  what: (.*)", r.stdout)
-dst = f"/verif/seeded/{prop}-{var}"
+dst = f"/verif/seeded/{prop}-{outvar}"
 os.makedirs(dst, exist_ok=True)
 for f in ("patch.diff", "demo.rs", "README.md", "patch_hooked.diff"):
     if os.path.exists(f"{src}/{f}"):
         shutil.copy(f"{src}/{f}", f"{dst}/{f}")
-meta = {"property": prop, "variant": var, "confirmed": bool(ok), "confirmation": conf, "demo_path": demo, "demo_cmd": "cargo test --offline " + " ".join(cmd),
+meta = {"property": prop, "variant": outvar, "confirmed": bool(ok), "confirmation": conf, "demo_path": demo, "demo_cmd": "cargo test --offline " + " ".join(cmd),
         "base_commit_for_confirmation": "3e8c7e9 (HEAD before the cfg-guarded hook commits; hooks are off in a normal build)",
         "checks_run_quick": results, "reported": whats[:6] if ok else []}
 if os.path.exists(f"{dst}/meta.json"):
